@@ -78,6 +78,10 @@ type Gen struct {
 	sccOf    map[string]int
 	frames   []havocFrame
 	siteSeen map[string]map[ssa.Instruction]int
+	pfx      string   // symbol prefix of the current inline instance
+	entryR   string   // reachability of the entry block ("true" for the function itself)
+	inlining []string // keys of functions currently being inlined
+	ninline  int
 }
 
 type retInfo struct {
@@ -449,11 +453,11 @@ func (g *Gen) constVal(c *ssa.Const) Val {
 func (g *Gen) symName(v ssa.Value) string {
 	switch v.(type) {
 	case *ssa.Parameter:
-		return "p_" + sanitize(v.Name())
+		return g.pfx + "p_" + sanitize(v.Name())
 	case *ssa.FreeVar:
-		return "fv_" + sanitize(v.Name())
+		return g.pfx + "fv_" + sanitize(v.Name())
 	}
-	return sanitize(v.Name())
+	return g.pfx + sanitize(v.Name())
 }
 
 func (g *Gen) defVal(v ssa.Value, term string) Val {
